@@ -10,7 +10,8 @@
 (*           stream.ndjson (-1 = absent), is the latter byte-identical to  *)
 (*           the file an uninterrupted run writes                          *)
 (*   follow  the next (fresh) run: did it resume or recompute, was its     *)
-(*           result the uninterrupted result                               *)
+(*           result the uninterrupted result; is the checkpoint complete   *)
+(*           afterwards; does a third run resume from it with that result  *)
 (***************************************************************************)
 EXTENDS Checkpoint, Json, IOUtils, Integers
 
@@ -51,6 +52,8 @@ FsEq == Lines(final) = T.post.final /\ Lines(active) = T.post.active
 C08 == /\ T.post.final >= 0 => T.post.final_complete                  \* a checkpoint that can be picked up is complete
        /\ T.follow.decision = (IF T.post.final >= 0 THEN "resume" ELSE "recompute")
        /\ T.follow.result_ok                                          \* the next run returns the uninterrupted result
+       /\ T.follow.final_complete /\ ~T.follow.active_left            \* ... and leaves a complete checkpoint behind (nothing stale)
+       /\ T.follow.third_ok                                           \* ... which a third run picks up, reproducing the result
 Verdict == stage \in {"crashed", "stuck"} =>
               PrintT(<<"VERDICT", t, l - 1, Len(Ev), stage = "crashed" /\ FsEq, C08, PickedUpIsComplete>>)
 =============================================================================
